@@ -361,12 +361,15 @@ TIERS = {"quick": [(2, 5), (3, 4)], "thorough": [(3, 6), (4, 5)]}
 
 def check(prop, tier, seed, into=None):
     v = into or Verdict(prop, tier, seed)
+    label_counts = {}
     tot = {"states": 0, "transitions": 0, "paths": 0, "replays": 0}
     for (maxent, maxops) in TIERS[tier]:
         res = run_tlc("ExitStack", cfg_text(maxent, maxops), outfiles=["edges.ndjson"], timeout=3000)
         tot["states"] += res["distinct"]
         tot["transitions"] += res["generated"]
         edges = read_ndjson(res["files"]["edges.ndjson"])
+        for e_ in edges:
+            label_counts[e_["a"][0]] = label_counts.get(e_["a"][0], 0) + 1
         paths = build_paths(edges, lambda f: f["n"] == 0 and f["nent"] == 0 and f["unw"]["which"] == "none")
         # only complete operations end a replay: keep paths whose last step closes an operation
         tot["paths"] += len(paths)
@@ -381,9 +384,13 @@ def check(prop, tier, seed, into=None):
             v.sample({"history": [e["a"] for e in paths[len(paths) // 2]]})
     v.assumptions += ["entry kinds of one class (exit / callback) behave alike in the spec; the replay rotates the concrete kinds",
                       "twins: the recursively built nested `async with` statements and contextlib.AsyncExitStack (both must agree with the spec on every replay)"]
+    vac = dict(label_counts)
+    missing = [a for a in ["register", "enterfail", "popall", "leave", "aclose", "exit", "finish"] if not vac.get(a)]
+    if missing:
+        raise MachineryError(f"vacuity guard: actions never taken in the explored graphs: {missing}")
     return v.finish({
         "states": tot["states"], "transitions": tot["transitions"], "traces_validated_against_impl": tot["replays"],
-        "edge_cover_paths": tot["paths"], "exhaustive": True, "evaluations": tot["replays"], "distinct_nontrivial": tot["paths"],
+        "edge_cover_paths": tot["paths"], "exhaustive": True, "vacuity_guard_actions_taken": vac, "evaluations": tot["replays"], "distinct_nontrivial": tot["paths"],
         "configs": TIERS[tier], "rule": "one replay per transition of the ExitStack state graph and kind rotation; distinct by construction",
         "checker_cmd": "tlc spec/ExitStack.tla (INVARIANTs NestedEq, Once, OnlyOwner)",
     })
